@@ -57,6 +57,10 @@ func (vc *VC) scriptSel(only int, sel func(*Obligation) bool, timeoutMs int, sol
 			continue
 		}
 		ob := it.ob
+		if ob.Cond == "true" {
+			ob.Result, ob.Solver = "unsat", "trivial"
+			continue
+		}
 		goal := Imp(ob.Guard, ob.Cond)
 		if (only < 0 && (sel == nil || sel(ob))) || only == ob.Index {
 			fmt.Fprintf(&body, "(echo \"ob %d\")\n(push 1)\n(assert (not %s))\n(check-sat)\n", ob.Index, goal)
@@ -67,6 +71,11 @@ func (vc *VC) scriptSel(only int, sel func(*Obligation) bool, timeoutMs int, sol
 			if only == ob.Index {
 				break
 			}
+		}
+		if softKind(ob) {
+			// discipline obligations (string qualifiers) are not assumed afterwards: an unproved one
+			// must not support later proofs, so it does not have to poison them either
+			continue
 		}
 		fmt.Fprintf(&body, "(assert %s)\n", goal)
 	}
@@ -222,6 +231,18 @@ func (vc *VC) SolveSel(sel func(*Obligation) bool, perCheckMs int, escalate bool
 	if n == 0 {
 		return
 	}
+	// verification conditions with many quantified facts are much slower in the solver's incremental
+	// mode: discharge their obligations one by one (in parallel)
+	nq := 0
+	for _, it := range vc.items {
+		if it.ob == nil && strings.Contains(it.fact, "(forall ") {
+			nq++
+		}
+	}
+	if nq > 12 {
+		vc.solveStandalone(sel, perCheckMs)
+		return
+	}
 	start := time.Now()
 	sc := vc.scriptSel(-1, sel, perCheckMs, solverZ3New.Name)
 	total := time.Duration(perCheckMs*n+5000) * time.Millisecond
@@ -232,6 +253,10 @@ func (vc *VC) SolveSel(sel func(*Obligation) bool, perCheckMs int, escalate bool
 	}
 	for _, ob := range vc.obls {
 		if sel != nil && !sel(ob) {
+			continue
+		}
+		if ob.Cond == "true" {
+			ob.Result, ob.Solver = "unsat", "trivial"
 			continue
 		}
 		ob.Result = r.results[ob.Index]
@@ -289,4 +314,53 @@ func (vc *VC) retry(ob *Obligation, perCheckMs int) {
 			}
 		}
 	}
+}
+
+var standaloneSem = make(chan struct{}, 16)
+
+// solveStandalone discharges each selected obligation with its own solver run.
+func (vc *VC) solveStandalone(sel func(*Obligation) bool, perCheckMs int) {
+	var wg sync.WaitGroup
+	for _, ob := range vc.obls {
+		if sel != nil && !sel(ob) {
+			continue
+		}
+		if ob.Cond == "true" {
+			ob.Result, ob.Solver = "unsat", "trivial"
+			continue
+		}
+		wg.Add(1)
+		go func(ob *Obligation) {
+			defer wg.Done()
+			standaloneSem <- struct{}{}
+			defer func() { <-standaloneSem }()
+			sc := vc.script(ob.Index, perCheckMs, solverZ3New.Name)
+			r := runSolver(solverZ3New, sc, time.Duration(perCheckMs+3000)*time.Millisecond, perCheckMs)
+			ob.Result = r.results[ob.Index]
+			if ob.Result == "" {
+				ob.Result = "unknown"
+			}
+			ob.Solver = solverZ3New.Name
+			ob.TimeMs = r.dur.Milliseconds()
+			if ob.Result == "sat" {
+				ob.Model = r.models[ob.Index]
+			}
+		}(ob)
+	}
+	wg.Wait()
+}
+
+// softKind: obligations of the string-qualifier disciplines (folded / nlfree).
+func softKind(ob *Obligation) bool {
+	switch ob.Kind {
+	case "nlfree-msg", "nlfree-store", "folded-key", "folded-store", "folded-elems":
+		return true
+	case "requires":
+		i := strings.LastIndex(ob.Text, ": ")
+		if i >= 0 {
+			t := ob.Text[i+2:]
+			return strings.HasPrefix(t, "nlfree(") || strings.HasPrefix(t, "folded(")
+		}
+	}
+	return false
 }
